@@ -117,8 +117,9 @@ def attr_group(*gks):
 
 PROPS["C20"] = dict(
     mc=[("MC_Round", None)],
-    drivers=[("modes", "TraceRel"), ("rel", "TraceRel")],
-    attr=attr_group("modes", "mono", "swap", "subneg", "mirror", "scale"),
+    drivers=[("modes", "TraceRel"), ("rel", "TraceRel"), ("shouldaddone", "TraceRel")],
+    tlaps="proofs/Kern.tla",
+    attr=lambda ev, names: fam(ev, "sao") or (fam(ev, "g") and ev.get("gk") in ("modes", "mono", "swap", "subneg", "mirror", "scale")),
     rule="groups of recorded executions of one case (8 modes + default; swapped / negated / scaled operands; ascending "
          "Round operands) compared with each other by TraceRel.tla, which imports no arithmetic oracle; distinct = distinct groups",
     technique="TLA+ relational trace validation (TraceRel.tla) of grouped real-code executions; RoundOnce bracket theorems model-checked (MC_Round); TLAPS kernel lemma",
